@@ -215,8 +215,24 @@ def build_go(race=False):
         return outs
 
 
-def batch(exe, lines, timeout=600):
-    """Feed request lines to a line-protocol process, return answer lines."""
+def build_sizer_arch(goarch):
+    """git-sizer cross-built from /repo's working tree for another architecture (the project releases 386 builds); None
+    when this machine cannot build or run it."""
+    with Lock("go"):
+        exe = os.path.join(BUILD, "git-sizer-" + goarch)
+        env = dict(GOENV, GOARCH=goarch, CGO_ENABLED="0")
+        rc, out = run(["go", "build", "-o", exe, "."], cwd=REPO, env=env, timeout=900)
+        if rc != 0:
+            return None
+        try:
+            p = subprocess.run([exe, "--version"], stdout=subprocess.PIPE, stderr=subprocess.PIPE, timeout=20)
+        except Exception:
+            return None
+        return exe if p.returncode == 0 else None
+
+
+def batch(exe, lines, timeout=600, env=None):
+    """Feed request lines to a line-protocol process, return answer lines (env: variables to add; None deletes one)."""
     data = ("\n".join(lines) + "\n").encode()
 
     def big_stack():
@@ -230,7 +246,12 @@ def batch(exe, lines, timeout=600):
                 resource.setrlimit(resource.RLIMIT_STACK, (hard, hard))
             except (ValueError, OSError):
                 pass
-    p = subprocess.run([exe], input=data, stdout=subprocess.PIPE, stderr=subprocess.PIPE, timeout=timeout, preexec_fn=big_stack)
+    penv = None
+    if env is not None:
+        penv = dict(os.environ)
+        penv.update(env)
+        penv = {k: v for k, v in penv.items() if v is not None}
+    p = subprocess.run([exe], input=data, stdout=subprocess.PIPE, stderr=subprocess.PIPE, timeout=timeout, preexec_fn=big_stack, env=penv)
     out = p.stdout.decode("utf-8", "replace").split("\n")
     if out and out[-1] == "":
         out.pop()
